@@ -10,18 +10,21 @@ COMMON_NOTE = ("Trusted: Coq 8.16.1 kernel + vm_compute (no native_compute); too
                "hand-written model files only as far as the correspondence run compared them with the compiled code; 64-bit int. "
                "No axioms: Print Assumptions under every property theorem is captured into the evidence on every run.")
 
-CLAIMED = {
-    "C19": {
-        "text": ("Theorems over Gallina definitions regenerated from primitive/constants.go and util.go on every run: every declared constant is accepted "
-                 "and specifically named; each validity check accepts no undeclared value for EVERY integer / string (structural proof, not enumeration); "
-                 "opcodes are exactly one of request/response; Check* helpers follow the predicates; capability predicates equal hand-transcribed "
-                 "specification tables on the six supported versions. The translator's output is compared with the compiled code on the complete 8/16-bit "
-                 "domains and sampled 32-bit/string domains, and the property's predicate is evaluated directly on the implementation."),
-        "technique": "Rocq proof over go2coq-regenerated definitions + model/code correspondence",
-        "design_ref": "3 C19",
-        "note": COMMON_NOTE + " coq/spec/SpecTables.v is a human transcription of specs/*.spec.",
-    },
-}
+import importlib
+import sys
+
+sys.path.insert(0, os.path.join(ROOT, "tools", "lib"))
+sys.path.insert(0, os.path.join(ROOT, "tools", "props"))
+
+# Each tools/props/Cxx.py exports MANIFEST = {"text":…, "technique":…, "design_ref":…, "note":…, optional "hooks": [...]}
+CLAIMED = {}
+for _p in ALL:
+    if os.path.exists(os.path.join(ROOT, "tools", "props", _p + ".py")):
+        _m = importlib.import_module(_p)
+        if getattr(_m, "MANIFEST", None):
+            CLAIMED[_p] = dict(_m.MANIFEST)
+            CLAIMED[_p].setdefault("note", "")
+            CLAIMED[_p]["note"] = (CLAIMED[_p]["note"] + " " + COMMON_NOTE).strip()
 
 NOT_YET = "machinery for this property is not built yet in this revision of /verif (the design claims it; see DESIGN.md section 3)"
 
